@@ -138,7 +138,8 @@ type LedgerObs struct {
 // Flags tells the specification which derived observables the ledger's feature set provides.
 type Flags struct {
 	Moves bool `json:"moves"` // MOVES_HISTORY = ON
-	Eff   bool `json:"eff"`   // effective volumes maintained
+	Eff   bool `json:"eff"`   // effective volumes maintained (MOVES_HISTORY = ON and ..._EFFECTIVE_VOLUMES = SYNC)
+	EffSync bool `json:"effsync"` // MOVES_HISTORY_POST_COMMIT_EFFECTIVE_VOLUMES = SYNC, whatever MOVES_HISTORY
 	Hash  bool `json:"hash"`  // HASH_LOGS = SYNC
 	AMH   bool `json:"amh"`   // ACCOUNT_METADATA_HISTORY = SYNC
 	TMH   bool `json:"tmh"`   // TRANSACTION_METADATA_HISTORY = SYNC
@@ -175,6 +176,14 @@ type Line struct {
 	CSeq  []int  `json:"cseq"`
 	Chain []int  `json:"chain"`
 	Sched string `json:"sched"`
+	// Aux marks a line that is not a request on a ledger (e.g. a ledger was created): only the state
+	// invariants and the frame condition apply to it
+	Aux   bool   `json:"aux"`
+	// Group line (C35): core projections of the same history under every feature combination, and the
+	// outcome classes of the feature-dependent reads under each of them
+	Group bool       `json:"group"`
+	Cores []Core     `json:"cores"`
+	FRead []FeatRead `json:"fread"`
 	Prop  string `json:"prop"` // property the concurrent scenario family targets (C06, C13, ...)
 	Fam   string `json:"fam"`
 }
@@ -215,6 +224,12 @@ func (l *Line) Norm() {
 	}
 	if l.Chain == nil {
 		l.Chain = []int{}
+	}
+	if l.Cores == nil {
+		l.Cores = []Core{}
+	}
+	if l.FRead == nil {
+		l.FRead = []FeatRead{}
 	}
 }
 
